@@ -26,7 +26,7 @@ THEOREMS = [_P + n for n in [
     "read_contracts_until", "read_contracts_result", "read_contracts_step", "read_contracts_run", "issued_of_ret",
     "stdR_local", "stdR_stable",
     # arrival independence: machine = strict batch reader for every segmentation; the first statement is refuted
-    "arrival_batch", "arrival_independent_partial", "arrival_independent_refuted",
+    "arrival_batch", "arrival_independent_partial", "arrival_independent_refuted", "arrival_schedule",
 ]]
 TRUSTED = [
     "core/faketransport.FakeStream + core/vloop (scripted transport, virtual loop): the model's transport part mirrors them",
@@ -62,7 +62,10 @@ CLAUSES = {
                                   "max_bytes) + arrival_independent_partial (two segmentations, same results); "
                                   "arrival_independent_refuted: the unrestricted statement is false (partial reads return "
                                   "what has arrived); hypotheses on the regex engine: RStable, RLocal (stdR_stable, stdR_local); "
-                                  "tie only: arrivals interleaved with the requests (a read issued later sees more buffered data)",
+                                  "arrival_schedule: ANY interleaving of feeds and stable requests (issued up front, re-issued "
+                                  "on completion, or later): the k-th accepted request returns batch[k] of the WHOLE stream "
+                                  "(results so far = prefix of the batch results); tie only: schedules containing EOF / errors / "
+                                  "close / read_into / read_until_close",
     "delimiter not found within max_bytes closes the stream instead of returning more":
         "no_result_over_max + unsat_closes + unsat_closes_on_event + unsat_only_with_max + close_closed",
 }
